@@ -26,6 +26,7 @@ type symPool struct {
 	byKey map[string]*symTerm
 	n     int
 	fresh int
+	terms []*symTerm // by id-1
 }
 
 func newSymPool() *symPool { return &symPool{byKey: map[string]*symTerm{}} }
@@ -50,6 +51,7 @@ func (p *symPool) mk(op, aux string, k int64, args []*symTerm, coef []int64) *sy
 	p.n++
 	t := &symTerm{id: p.n, op: op, aux: aux, k: k, args: args, coef: coef}
 	p.byKey[key] = t
+	p.terms = append(p.terms, t)
 	return t
 }
 
@@ -243,6 +245,14 @@ func symDistinct(a, b *symTerm) bool {
 		return t.op == "nil" || (t.op == "sym" && strings.HasPrefix(t.aux, "param:"))
 	}
 	switch {
+	case a.op == "elem" && b.op == "elem":
+		// elements of arrays: different arrays, or different constant indices
+		if symDistinct(a.args[0], b.args[0]) {
+			return true
+		}
+		return a.args[0] == b.args[0] && a.args[1].op == "int" && b.args[1].op == "int" && a.args[1].k != b.args[1].k
+	case a.op == "elem" && (b.isAlloc() || pre(b)), b.op == "elem" && (a.isAlloc() || pre(a)):
+		return true
 	case a.isAlloc() && b.isAlloc():
 		return true
 	case a.isAlloc() && pre(b), b.isAlloc() && pre(a):
